@@ -48,6 +48,55 @@ UNITS.append(flow.Unit('riemann-igeos', groups=['riemann'], props=['props/C02_ri
                        custom_corr=RC.unit_corr, oracle=RO.rh_oracle))
 
 
+import sedov_corr as SDC
+import mader_corr as MDC
+import sedov_oracle as SDO
+
+
+def sedov_jump_oracle(rng, tier, reasons):
+    # strong-shock relations on the REAL object: the recorded jump state against the shock speed from neighbouring times
+    SCRIPT = r'''
+import warnings
+from exactpack.solvers.sedov import Sedov
+def main(payload):
+    out = []
+    for c in payload:
+        try:
+            with warnings.catch_warnings():
+                warnings.simplefilter('ignore')
+                s = Sedov(**c['params']); t = c['t']; g = c['params']['gamma']
+                s(np.array([1.0]), t); r2 = float(s.r2); rho1, rho2, u2, p2 = (float(getattr(s, k)) for k in ('rho1', 'rho2', 'u2', 'p2'))
+                h = 1e-4 * t
+                s(np.array([1.0]), t + h); rp = float(s.r2); s(np.array([1.0]), t - h); rm = float(s.r2)
+                us = (rp - rm) / (2 * h)
+                e2 = p2 / ((g - 1) * rho2)
+                mass = rho2 * (u2 - us) - rho1 * (0 - us)
+                mom = rho2 * (u2 - us) * u2 + p2
+                en = rho2 * (u2 - us) * (e2 + u2 * u2 / 2) + p2 * u2
+                sc = rho1 * us
+                amb = c['params'].get('rho0', 1.0) * r2 ** (-c['params'].get('omega', 0.0))
+                out.append({'mass': abs(mass) / sc, 'momentum': abs(mom) / (sc * us), 'energy': abs(en) / (sc * us * us), 'ambient': abs(rho1 - amb) / amb})
+        except Exception as ex:
+            out.append({'error': type(ex).__name__ + ': ' + str(ex)[:200]})
+    return out
+'''
+    cs = SDO.cases(rng, 2 if tier == 'quick' else 10)
+    res = H.run_real(SCRIPT, cs, timeout=1800)
+    fails = []
+    for c, r in zip(cs, res):
+        if 'error' in r:
+            continue
+        bad = {k: v for k, v in r.items() if not (v <= 1e-6)}
+        if bad:
+            fails.append({'solver': 'Sedov', 'input': c, 'normalised_jump_defects': bad})
+    return fails
+
+
+UNITS.append(flow.Unit('sedov-mader', groups=['sedov', 'mader'], props=['props/C02_sedov_mader.v'], custom_corr=MDC.unit_corr, oracle=sedov_jump_oracle,
+                       note='Sedov: coded post-shock state, ambient profile and shock speed (= d r2/dt, theorem) satisfy the strong-shock jump conditions; '
+                            'Mader: CJ state of rare() satisfies mass / momentum across the front and the sonic condition; gen/Sedov.v correspondence runs in ./check C11'))
+
+
 def run(report, tier, rng):
     report.assumptions += [
         'real-number semantics of the generated model; py2coq translator validated by in-Coq correspondence goals',
